@@ -26,7 +26,7 @@ Guard = tuple
 
 @dataclass
 class Eff:
-    kind: str                      # call | ret | yield | store | raise
+    kind: str                      # call | ret | yield | store | raise | bind
     name: str                      # method / function name ('' for others)
     recv: str                      # receiver role ('' for plain functions)
     args: tuple[str, ...]
@@ -39,7 +39,8 @@ class Eff:
                 "ret": f"return {', '.join(self.args)}",
                 "yield": f"yield {', '.join(self.args)}",
                 "store": f"{self.recv} = {', '.join(self.args)}",
-                "raise": "raise"}[self.kind]
+                "raise": "raise", "bind": f"{self.name} := "
+                f"{', '.join(self.args)}"}[self.kind]
         return f"{head} when {self.guards or 'always'}"
 
 
@@ -152,6 +153,73 @@ def effects(ctx: Ctx, fi: FuncInfo, names: Optional[Iterable[str]] = None,
                                guards_at(n, side), n))
         elif isinstance(n, ast.Raise):
             out.append(Eff("raise", "", "", (), guards_at(n, []), n))
+    # bindings of the variables a function returns by name: the ``phi`` in
+    # the role of `return a, b` says WHICH values can be returned, a
+    # "bind" effect says under which conditions each of them is chosen
+    pos: dict[str, list[tuple[int, list]]] = {}
+    arity = max([len(n.value.elts) for n in ast.walk(fi.node)
+                 if isinstance(n, ast.Return) and isinstance(
+                     n.value, ast.Tuple)] or [1])
+    for n in ast.walk(fi.node):
+        if isinstance(n, ast.Return) and n.value is not None:
+            val = n.value
+            if isinstance(val, ast.Name):
+                # `t = (a, b)` ... `return t`
+                ds = [a for a in ast.walk(fi.node) if isinstance(
+                    a, ast.Assign) and len(a.targets) == 1 and isinstance(
+                    a.targets[0], ast.Name) and a.targets[0].id == val.id]
+                if len(ds) == 1 and isinstance(ds[0].value, ast.Tuple):
+                    val = ds[0].value
+                    arity = max(arity, len(val.elts))
+            elts = val.elts if isinstance(val, ast.Tuple) else [val]
+            if not any(isinstance(el, ast.Name) for el in elts) and len(
+                    elts) == 1:
+                # `return f(..)` in a function that elsewhere returns a
+                # k-tuple: the call yields all k positions
+                if arity > 1 and isinstance(elts[0], ast.Call):
+                    rs, side = roles([elts[0]], n)
+                    for k in range(arity):
+                        out.append(Eff("bind", f"ret[{k}]", "",
+                                       (f"{rs[0]}[{k}]",),
+                                       guards_at(n, side), n))
+                continue
+            rg = guards_at(n, [])
+            for k, el in enumerate(elts):
+                if isinstance(el, ast.Name):
+                    pos.setdefault(el.id, []).append((k, rg))
+                else:
+                    # returned as an expression: bound where it is returned
+                    rs, side = roles([el], n)
+                    out.append(Eff("bind", f"ret[{k}]", "", (rs[0],),
+                                   guards_at(n, side), n))
+    if pos:
+        for n in ast.walk(fi.node):
+            if isinstance(n, ast.AnnAssign) and n.value is not None:
+                tgt = n.target
+            elif isinstance(n, ast.Assign) and len(n.targets) == 1:
+                tgt = n.targets[0]
+            else:
+                continue
+            pairs: list[tuple[str, str, list]] = []
+            if isinstance(tgt, ast.Name) and tgt.id in pos:
+                rs, side = roles([n.value], n)
+                pairs.append((tgt.id, rs[0], side))
+            elif isinstance(tgt, ast.Tuple):
+                for i, el in enumerate(tgt.elts):
+                    if not (isinstance(el, ast.Name) and el.id in pos):
+                        continue
+                    if isinstance(n.value, ast.Tuple) and len(
+                            n.value.elts) == len(tgt.elts):
+                        rs, side = roles([n.value.elts[i]], n)
+                        pairs.append((el.id, rs[0], side))
+                    else:
+                        rs, side = roles([n.value], n)
+                        pairs.append((el.id, f"{rs[0]}[{i}]", side))
+            for var, role, side in pairs:
+                for k, rg in pos[var]:
+                    gs = guards_at(n, side)
+                    out.append(Eff("bind", f"ret[{k}]", "", (role,),
+                                   gs + [g for g in rg if g not in gs], n))
     return out
 
 
